@@ -422,6 +422,28 @@ def find_variant(t, adt_suffix=None):
     return None
 
 
+def pow2(n):
+    return isinstance(n, int) and n > 0 and n & (n - 1) == 0
+
+
+def bits_canon(t):
+    """one spelling for unsigned bit-field arithmetic: x % 2^k = x & (2^k - 1), x / 2^k = x >> k, x * 2^k = x << k"""
+    if not isinstance(t, tuple) or not t:
+        return t
+    if t[0] == 'bin':
+        a, d = bits_canon(t[2]), bits_canon(t[3])
+        if t[1] == 'Rem' and is_const(d) and pow2(d[1]):
+            return ('bin', 'BitAnd', a, ('const', d[1] - 1))
+        if t[1] == 'Div' and is_const(d) and pow2(d[1]):
+            return ('bin', 'Shr', a, ('const', d[1].bit_length() - 1))
+        if t[1] == 'Mul' and (is_const(d) and pow2(d[1]) or is_const(a) and pow2(a[1])):
+            if is_const(a):
+                a, d = d, a
+            return ('bin', 'Shl', a, ('const', d[1].bit_length() - 1))
+        return ('bin', t[1], a, d)
+    return tuple(bits_canon(x) if isinstance(x, tuple) else x for x in t)
+
+
 def r164(facts, res):
     R = 'R16.4'
     enc = facts.one(R, 'StateTable::encode', crate='lrtable', name='encode', impl_re=r'statetable::StateTable<')
@@ -433,10 +455,11 @@ def r164(facts, res):
         dv = [v for c, v in p.conds if c == ('discr', ('param', 1))]
         if p.end[0] != 'return' or not dv or not isinstance(dv[0], int):
             continue
-        r = p.end[1]
+        r = bits_canon(p.end[1])
         if is_const(r):
             etab[vn[dv[0]]] = (r[1], None, None)
-        elif r[0] == 'bin' and r[1] == 'BitOr':
+        elif r[0] == 'bin' and r[1] in ('BitOr', 'Add', 'BitXor'):
+            # tag | (payload << k); with the tag below 2^k (checked against the mask further down) `+` and `^` are the same value
             tag, sh = (r[2], r[3]) if is_const(r[2]) else (r[3], r[2])
             if is_const(tag) and sh[0] == 'bin' and sh[1] == 'Shl' and is_const(sh[3]):
                 payload_ok = term_has(sh[2], lambda x: x == ('param', 1))
@@ -447,14 +470,24 @@ def r164(facts, res):
         if p.end[0] != 'return':
             continue
         v = find_variant(p.end[1], 'Action')
-        tagc = [(c, val) for c, val in p.conds if c[0] == 'bin' and c[1] == 'BitAnd']
-        if v is None or not tagc or not isinstance(tagc[0][1], int):
+        # the tag test: a switch on bits & mask, or an equality of bits & mask with a constant found true
+        tagc = []
+        for c, val in p.conds:
+            c = bits_canon(c)
+            if c[0] == 'bin' and c[1] == 'BitAnd':
+                tagc.append((c, val))
+            elif c[0] == 'bin' and c[1] == 'Eq' and val == 1:
+                for x, k in ((c[2], c[3]), (c[3], c[2])):
+                    if x[0] == 'bin' and x[1] == 'BitAnd' and is_const(k):
+                        tagc.append((x, k[1]))
+        tagc = [(c, val) for c, val in tagc if isinstance(val, int)]
+        if v is None or not tagc:
             continue
-        c, val = tagc[0]
+        c, val = tagc[-1]
         m = c[3][1] if is_const(c[3]) else (c[2][1] if is_const(c[2]) else None)
         mask = m
         sh = None
-        for x in subterms(p.end[1]):
+        for x in subterms(bits_canon(p.end[1])):
             if isinstance(x, tuple) and x[:2] == ('bin', 'Shr') and is_const(x[3]):
                 sh = x[3][1]
         dtab[v[3]] = (val, sh)
@@ -481,7 +514,11 @@ def r164(facts, res):
         if p.end[0] != 'return':
             continue
         v = find_variant(p.end[1], 'Option')
+        # "the stored value is 0": a switch on the payload of get(), or its comparison with the constant 0
         raw = [(c, val) for c, val in p.conds if c[0] == 'field' and has_call(c, 'get')]
+        for c, val in p.conds:
+            if c[0] == 'bin' and c[1] == 'Eq' and isinstance(val, int) and has_call(c, 'get') and ('const', 0) in (c[2], c[3]):
+                raw.append((c, 0 if val == 1 else ('ne', frozenset([0]))))
         if v is None or not raw:
             continue
         if v[3] == 'None' and raw[0][1] == 0:
